@@ -35,6 +35,14 @@ type ProcPluginService struct {
 
 func (s *ProcPluginService) NewProcessor(ctx context.Context, pluginName string, id string, _ egress.Policy) (sdk.Processor, error) {
 	sys := s.w.procs[id]
+	if sys == nil && s.w.direct {
+		// sequential API families create processors under generated ids
+		if pluginName == "" {
+			return nil, cerrors.New("sim: empty processor plugin name")
+		}
+		sys = newProcSys(s.w, ProcCfg{ID: id})
+		s.w.procs[id] = sys
+	}
 	if sys == nil {
 		return nil, cerrors.Errorf("sim: unknown processor %q", id)
 	}
